@@ -195,6 +195,27 @@ def judge(S, o, decl):
     return fails, nan, ser
 
 
+def reuse_failures(S, prev, o):
+    """`prev` has been serialised in every form already; a copy of it carrying o's field values equals o and must
+    serialise to something that parses back to o (no state of earlier serialisations may leak)."""
+    fails = []
+    try:
+        oc = prev.copy(update=dict(o.__dict__))
+    except Exception:
+        return fails
+    if not (oc == o):
+        return fails
+    for form, fn in _SER.items():
+        try:
+            back = _parse(S, form, fn(oc))
+        except Exception as ex:
+            fails.append(("reuse", form, f"{form} form of a copy(update=...) of an instance serialised before is not parsable: {_exc(ex)}"))
+            continue
+        if not (back == o):
+            fails.append(("reuse", form, f"{form} form of prev.copy(update=<fields of o>) parses to {G.short(back.__dict__)} instead of {G.short(o.__dict__)} (prev was serialised before: {G.short(prev.__dict__)})"))
+    return fails
+
+
 # ------------------------------------------------------------------------------------------------ generated classes
 
 
@@ -346,6 +367,7 @@ def run_gen(item):
     decl = G.const_decl(item.get("consts", "none"), e)
     seen = set()
     classes_reported = set()
+    prev = None
     for vals in _gen_values(item, ts):
         res["evals"] += 1
         (status, kind), fails, nan, ser, o = _case_gen(S, ts, item, vals, decl)
@@ -360,6 +382,12 @@ def run_gen(item):
             res["rejected"] += 1
             res["rej_kinds"][kind] = res["rej_kinds"].get(kind, 0) + 1
             continue
+        if not fails and not nan and prev is not None:
+            # serialisation depends on the current field values only: an instance that was serialised before and
+            # is then copied with the field values of this one must serialise like this one
+            fails = reuse_failures(S, prev, o)
+        if not nan:
+            prev = o
         res["valid"] += 1
         if nan:
             res["nan_skipped"] += 1
@@ -531,7 +559,7 @@ def gen_items(tier):
     for ts in d2:
         is_union = ts.startswith("Union[")
         for cv in G.CONST_VARIANTS:
-            if q and is_union and cv == "acf":
+            if q and is_union and cv in ("acf", "ldx"):
                 continue
             items.append({"type": ts, "consts": cv, "mode": "req"})
         items.append({"type": ts, "consts": "none", "mode": "dflt"})
